@@ -102,7 +102,7 @@ theorem faithful_or_rejected_partial (conv : B → Conv (WireList R))
   · have : r = (s, .ret .nil) := hr
     rw [this]
     exact ⟨hinv, Or.inl ⟨v, hv, rfl, hsound _ _ hc _ hinv⟩⟩
-  · have : r = (({ last := v }, { enforced := enforcedOf mo.valid mo.norm mo.equiv s.2.enforced v }), .ret .nil) := hr
+  · have : r = (({ last := v }, { enforced := enforcedOf mo.valid mo.norm mo.equiv mo.reusable s.2.enforced v }), .ret .nil) := hr
     rw [this]
     have hrel := reuseBuild_rel mo (validElems mo.valid v) s.2.enforced
     exact ⟨by simpa [Inv, Sentinel.Datasource.Inv, enforcedOf] using hrel,
@@ -236,9 +236,9 @@ theorem redelivery_noop (conv : B → Conv (WireList R)) (eqv : Option (WireList
     rw [e1]; exact hr
   · have e1 : r1 = (s, .ret .nil) := hr
     rw [e1]; exact hr
-  · have e1 : r1 = (({ last := v }, { enforced := enforcedOf mo.valid mo.norm mo.equiv s.2.enforced v }), .ret .nil) := hr
+  · have e1 : r1 = (({ last := v }, { enforced := enforcedOf mo.valid mo.norm mo.equiv mo.reusable s.2.enforced v }), .ret .nil) := hr
     rw [e1]
-    rcases deliver_cases conv eqv mo ({ last := v }, { enforced := enforcedOf mo.valid mo.norm mo.equiv s.2.enforced v }) src
+    rcases deliver_cases conv eqv mo ({ last := v }, { enforced := enforcedOf mo.valid mo.norm mo.equiv mo.reusable s.2.enforced v }) src
       with ⟨hp, _⟩ | ⟨he, _⟩ | ⟨v', hv', _, hr'⟩ | ⟨v', hv', hc', _⟩
     · rw [hp] at hv; cases hv
     · rw [he] at hv; cases hv
@@ -263,9 +263,9 @@ theorem redelivery_noop_exact (conv : B → Conv (WireList R)) (eqv : Option (Wi
     rw [e1]; exact hr
   · have e1 : r1 = (s, .ret .nil) := hr
     rw [e1]; exact hr
-  · have e1 : r1 = (({ last := v }, { enforced := enforcedOf mo.valid mo.norm mo.equiv s.2.enforced v }), .ret .nil) := hr
+  · have e1 : r1 = (({ last := v }, { enforced := enforcedOf mo.valid mo.norm mo.equiv mo.reusable s.2.enforced v }), .ret .nil) := hr
     rw [e1]
-    rcases deliver_cases conv eqv mo ({ last := v }, { enforced := enforcedOf mo.valid mo.norm mo.equiv s.2.enforced v }) src
+    rcases deliver_cases conv eqv mo ({ last := v }, { enforced := enforcedOf mo.valid mo.norm mo.equiv mo.reusable s.2.enforced v }) src
       with ⟨hp, _⟩ | ⟨he, _⟩ | ⟨v', hv', _, hr'⟩ | ⟨v', hv', _, hr'⟩
     · rw [hp] at hv; cases hv
     · rw [he] at hv; cases hv
@@ -333,7 +333,7 @@ theorem hotspot_paramkey_dropped_witness (sc : StrConv) :
 
 /-- `stale-equal-rule`: a delivered rule that the module judges equal to one in force leaves the *old* object in force -/
 theorem stale_equal_rule_witness (mo : Module R) (o r : R) (hval : mo.valid r = true) (heq : mo.equiv o r = true) :
-    enforcedOf mo.valid mo.norm mo.equiv [o] (some (some [some r])) = [o] := by
+    enforcedOf mo.valid mo.norm mo.equiv mo.reusable [o] (some (some [some r])) = [o] := by
   simp [enforcedOf, validElems, WireList.elems, reuseBuild, hval, heq]
 
 /-! ## 7. Refreshable file source -/
